@@ -42,7 +42,7 @@ RULE = ("seeded generator. (a) sequential call sequences (15-45 calls) on the re
 ASSUMPTIONS = [
     "sync.RWMutex gives mutual exclusion between a write section and every other section (runtime, not modelled); each method body is one section",
     "encoding/json (Marshal of the maps, Decoder.Decode of the kick body), net/url query parsing and net/http's ResponseWriter are libraries: the model takes the decoded id list / query value as input",
-    "online/offline notifications are paired by the server (once per accepted auth, once when that connection's handler returns): hypothesis `paired` of C15_online_exact; proved of the world model of core/server (C15_notifications_paired: auth handler in atomic steps, connection dying at any point of them) and checked end to end on every e2e script",
+    "online/offline notifications are paired by the server (once per accepted auth, once when that connection's handler returns): hypothesis `paired` of C15_online_exact; proved of the world model of core/server (C15_notifications_paired: auth handler in atomic steps, connection dying at any point of them), DISCHARGED for every run of C01's server model (C15_paired_from_C01_run, C15_online_listing_after_C01_run: the listing after any C01 run = connections authenticated with that id and not yet closed; coq/proof/C15_FromC01.v) and checked end to end on every e2e script - each recorded e2e event sequence must also be a run of C01's model whose LogOnlineState calls, fed to this object's model, give the recorded GET /online listings (c01_world_check in corr/C15_Corr.v)",
     "http3.Server.ServeQUICConn returns only after every request handler it started has returned (handleConn: wg.Wait): in the model handleClient's continuation is not enabled while an auth handler of the connection is in flight",
     "after quic.Conn.CloseWithError no stream or datagram of that connection carries bytes any more and http3's ServeQUICConn returns (quic-go; modelled as: a closed connection makes no report, its handler may return); observed end to end on every refused step",
     "TCP sites: the refusing copy direction's errDisconnect is the first value to reach copyTwoWayEx's channel (hypothesis `other_first = false` of the site theorems; the other case is C06's open finding veto-swallowed-other-direction-returned-first)",
